@@ -16,12 +16,13 @@ def plan(tier, seed):
         by_mode = {
             'absent': [dict(n=3, m=2, labels='ints', schemes='two_b', per=6), dict(n=2, m=3, labels='ints', schemes='one_b', per=4),
                        dict(n=1, m=2, labels='ints', schemes='two')],
-            'absent_enum': [dict(n=3, m=2, labels='ints', schemes='all'), dict(n=2, m=3, labels='ints', schemes='six'),
+            'absent_enum': [dict(n=3, m=2, labels='ints', schemes='six'), dict(n=2, m=3, labels='ints', schemes='four'),
                             dict(n=3, m=2, labels=alt, schemes='two'),
                             dict(n=3, m=3, labels='ints', schemes='cycle', per=60, nontrivial_only=True),
-                            dict(space='ext43', labels='ints', schemes='ext', per=300)],
-            'stub': [dict(n=3, m=2, labels='ints', schemes='all'), dict(n=3, m=3, labels='ints', schemes='one', per=60),
-                     dict(n=4, m=2, labels='ints', schemes='one_b', per=60), dict(n=3, m=2, labels=alt, schemes='two'),
+                            dict(space='ext43', labels='ints', schemes='ext', per=300, flags='one')],
+            'stub': [dict(n=3, m=2, labels='ints', schemes='six'), dict(n=3, m=2, labels='ints', schemes='rest11', reuse=False),
+                     dict(n=4, m=2, labels='ints', schemes='one_b', per=60, flags='one', configs='plain'),
+                     dict(n=3, m=2, labels=alt, schemes='two'),
                      dict(n=1, m=2, labels='ints', schemes='two'),
                      dict(n=3, m=3, labels='ints', schemes='cycle', per=60, nontrivial_only=True),
                      dict(space='ext43', labels='ints_rev', schemes='ext', per=300)],
@@ -61,6 +62,7 @@ def init_worker(cfg):
     algos.init_mode(mode)
     _lib['mode'] = mode
     _lib['configs'] = cross.select_configs(mode, EXACT)
+    _lib['plain'] = cross.select_configs(mode, ['ExactCplex(opt=False)', 'ExactCplexOptim1', 'Exact(opt=True)'])
     _lib['decoded'] = {}
 
 
@@ -282,7 +284,8 @@ def run_shard(sh):
                 return any(refmodel.nontrivial_components(u, refmodel.ref_table(u, ds, s[0], s[1])) for s in schemes)
         if sh.get('components_only'):
             flt = lambda ds: len(ds) == 2 and len(spaces.universe_of(ds)) == 4
-        cross.run_block(ctx, sh, _lib['mode'], _lib['configs'], oracle, ds_filter=flt)
+        cross.run_block(ctx, sh, _lib['mode'], _lib[sh.get('configs', 'configs')], oracle, ds_filter=flt,
+                        flags=(True,) if sh.get('flags') == 'one' else (True, False))
     return ctx.result()
 
 
